@@ -125,12 +125,19 @@ CLAIMS = {
          "dynamic dispatch over the Node family, strings.Split/TrimSpace -, reachability-based 'type not found' in Check(), and that registering unused types "
          "changes nothing.",
          "5 C05", "weakest-precondition VCs over go/ssa + SMT; data-structure invariant with ghost witness"),
+ "C07": ("Partial, thin (the refusal clause for additionalProperties). AdditionalProperties.IsEqual is proved to compare exactly the payload (schema type and user type name) "
+         "and is given the precondition that both constraints have the same mode; allOfConstraintCompiler.extendWith - verified under a partial-correctness contract, with "
+         "everything it calls through the Node interface family treated as arbitrary - is proved to call it only on constraints of the same mode, so an object never inherits "
+         "additionalProperties of a different mode silently (the original tree did: fixed); the deferred handlers CatchLexEventError / CatchLexEventErrorWithIncorrectUserType are "
+         "proved never to swallow a panic (whenever they recover a value they panic again), which is what lets extendWith's refusals reach Check(). Not decided: that the compiled "
+         "object has exactly own ++ inherited properties with origin marks and required flags, duplicate property names, inheritance from non-object / missing types, cycles "
+         "(processType bookkeeping), and what Example()/OpenAPI show.",
+         "5 C07", "weakest-precondition VCs over go/ssa + SMT; partial-correctness contract with unmodelled callees as havoc; re-throw obligation for deferred handlers"),
 }
 
 NOT_APPLICABLE = {
  "C03": "whole-pipeline language inclusion + round trip against an independent decoder: needs a verified reference grammar of the ~70-state schema scanner and the loader protocol; no per-function contract in reach states it (DESIGN.md I.6 and Part II section 6)",
  "C06": "the recursion checker and Example() termination are graph algorithms over the Node interface family with dynamic dispatch and a type table threaded through recursive calls; a contract needs an inductive reachability predicate over the heap-allocated node graph (ghost graph + measure), which the built verifier has no support for (no heap-recursive predicates); not brought under contract in the time available (DESIGN.md I.6)",
- "C07": "the merge loop (allOfConstraintCompiler.extendWith/processType) works through dynamic dispatch over the Node family (Copy, SetInheritedFrom, AddChild) inside defer/recover re-throwing handlers; a contract strong enough to state 'own ++ inherited keys' needs contracts for the whole Node interface family, not done in the time available; the observed defect (additionalProperties true vs false merges silently) is documented in DESIGN.md I.8 but not claimed",
  "C08": "instance validity of the example against the generated OpenAPI schema needs an independent JSON Schema validator as oracle and a relation between two whole-pipeline outputs; no per-function contract states it (DESIGN.md I.6 and Part II section 6); the pooled-buffer half of the marshalers is claimed under C10",
  "C15": "Len() is computed by the ~70-state schema scanner and the enum scanner, which are not under contract (only the JSON document scanner is, and its Len clause is listed as not covered under C12); the boundary/idempotence/trailer clauses relate two runs on different texts (2-safety)",
  "C11": "quantifies over goroutine interleavings; the verifier is sequential (mutexes/Once are no-ops in its model), no permission logic for threads (DESIGN.md I.6 and Part II section 6)",
